@@ -41,10 +41,23 @@ def anyCondHolds : List RBranch → Bool
 
 abbrev Answered := String → Bool
 
+def RAct.cond : RAct → Bool
+  | .irq _ c => c
+  | .msg _ c => c
+
+/-- in a step that has acts beside its branches the first act is a sibling of the branches (the later acts hang off their predecessor):
+when it runs, it takes the step like a branch whose condition holds, and the `else` branch does not run -/
+def firstActTakes : List RAct → Bool
+  | x :: _ => x.cond
+  | [] => false
+
+/-- does anything take the step? -/
+def stepTaken (bs : List RBranch) (as : List RAct) : Bool := anyCondHolds bs || firstActTakes as
+
 /-! `done`: the construct, once started, has reached a terminal state.  `opens`: the interrupts it is waiting on. -/
 mutual
 def doneStep (a : Answered) : RStep → Bool
-  | .mk _ c bs as => if !c then true else doneBranches a (anyCondHolds bs) (termIds a bs) bs && doneActs a as
+  | .mk _ c bs as => if !c then true else doneBranches a (stepTaken bs as) (termIds a bs) bs && doneActs a as
 def doneSteps (a : Answered) : List RStep → Bool
   | [] => true
   | s :: ss => doneStep a s && doneSteps a ss
@@ -78,7 +91,7 @@ end
 
 mutual
 def opensStep (a : Answered) : RStep → List String
-  | .mk _ c bs as => if !c then [] else opensBranches a (anyCondHolds bs) (termIds a bs) bs ++ opensActs a as
+  | .mk _ c bs as => if !c then [] else opensBranches a (stepTaken bs as) (termIds a bs) bs ++ opensActs a as
 /-- steps of a list run one after the other: only the first unfinished one is active -/
 def opensSteps (a : Answered) : List RStep → List String
   | [] => []
@@ -148,14 +161,27 @@ def anyHoldingDone (a : Answered) (tm : List String) : List RBranch → Bool
   | [] => false
   | b :: bs => holdingDone a tm b || anyHoldingDone a tm bs
 
+/-- the first act of a mixed step took the step and the acts have run to their end: the engine decides a waiting `else` branch when
+its step is next reviewed, and an act that has a successor hands over to it without a review of the step. (Between the ending of the
+first act and that review the state of the `else` branch — `pending` or already `skipped` — and, when the first act was skipped, the
+moment the `else` branch is woken depend on the schedule; the outcome does not. The driver therefore compares steps that have both acts
+and an `else` branch on finished runs only.) -/
+def firstActDone (a : Answered) : List RAct → Bool
+  | x :: xs => x.cond && doneActs a (x :: xs)
+  | [] => false
+
+/-- some sibling that took the step has ended -/
+def stepTakenDone (a : Answered) (bs : List RBranch) (as : List RAct) : Bool :=
+  anyHoldingDone a (termIds a bs) bs || firstActDone a as
+
 /-! the nodes that have started, with the state the interpretation assigns to them.  The `else` branch is `pending` while a
 sibling whose condition holds is still running and `skipped` once such a sibling has finished (the code decides it then). -/
 mutual
 def statesStep (a : Answered) : RStep → List (String × String)
   | .mk i c bs as =>
     if !c then [(i, "skipped")]
-    else (i, if doneBranches a (anyCondHolds bs) (termIds a bs) bs && doneActs a as then "completed" else "running") ::
-      (statesBranches a (anyCondHolds bs) (anyHoldingDone a (termIds a bs) bs) (termIds a bs) bs ++ statesActs a as)
+    else (i, if doneBranches a (stepTaken bs as) (termIds a bs) bs && doneActs a as then "completed" else "running") ::
+      (statesBranches a (stepTaken bs as) (stepTakenDone a bs as) (termIds a bs) bs ++ statesActs a as)
 def statesSteps (a : Answered) : List RStep → List (String × String)
   | [] => []
   | s :: ss => statesStep a s ++ (if doneStep a s then statesSteps a ss else [])
